@@ -736,8 +736,8 @@ func caseCoq(c *Case, obs []*Obs) string {
 	for _, t := range c.Txs {
 		ts = append(ts, txCoq(t))
 	}
-	sb.WriteString("(let T := " + vf.List(ts) + " in\n let t := fun i => nth i T (mkTx 0 0 false 0 0 0 0 false 0) in\n")
-	sb.WriteString(fmt.Sprintf(" mkCase %s %d %s [\n", cfgCoq(c.Cfg), c.NAccts, blockCoq(&c.Blocks[c.Genesis])))
+	sb.WriteString("(let T := " + vf.List(ts) + " in\n let t := fun i => nth (N.to_nat i) T (mkTx 0 0 false 0 0 0 0 false 0) in\n")
+	sb.WriteString(fmt.Sprintf(" mkCase %s %d%%nat %s [\n", cfgCoq(c.Cfg), c.NAccts, blockCoq(&c.Blocks[c.Genesis])))
 	for i := range obs {
 		if i > 0 {
 			sb.WriteString(";\n")
@@ -773,7 +773,7 @@ func (g *gen) mkTx(from int, sig bool, nonce, price, gas, value uint64, data int
 
 func (g *gen) price(acct int, k uint64) uint64 { return 8*k + uint64(acct) }
 
-var balances = []uint64{0, 2000000, 5000000, 20000000, 20000000, 1000000000, 1000000000}
+var balances = []uint64{0, 2000000, 5000000, 20000000, 20000000, 1000000000, 1000000000, 1000000000}
 
 func (g *gen) randTx() int {
 	r := g.r
@@ -786,7 +786,7 @@ func (g *gen) randTx() int {
 	var nonce uint64
 	var k uint64 = uint64(1 + r.Intn(12))
 	switch x := r.Intn(100); {
-	case x < 48:
+	case x < 54:
 		nonce = next
 	case x < 66:
 		nonce = next + uint64(1+r.Intn(3))
@@ -831,8 +831,8 @@ func (g *gen) randTx() int {
 	if r.Chance(6) {
 		k = 0 // below any price limit
 	}
-	gas := r.Pick([]uint64{21000, 21000, 21000, 21000, 30000, 50000, 100000, 20000, 200000, 40000})
-	value := r.Pick([]uint64{0, 0, 100, 100, 1000000, 4000000, 30000000})
+	gas := r.Pick([]uint64{21000, 21000, 21000, 21000, 21000, 21000, 30000, 30000, 50000, 100000, 20000, 200000, 40000})
+	value := r.Pick([]uint64{0, 0, 100, 100, 100, 1, 1000000, 4000000, 30000000})
 	data, sig := 0, true
 	switch x := r.Intn(100); {
 	case x < 2:
@@ -914,7 +914,11 @@ func (g *gen) newBlock() (int, bool) {
 			take--
 		}
 	}
+	lower := parent != g.head && r.Chance(40) // the other branch spent the money elsewhere
 	for a := 0; a < c.NAccts; a++ {
+		if lower && r.Chance(50) {
+			st[a].Balance = r.Pick([]uint64{600000, 1000000, 2000000})
+		}
 		if r.Chance(12) {
 			st[a].Balance = r.Pick(balances)
 		}
@@ -954,6 +958,15 @@ func (g *gen) nextOps() []Op {
 		}
 		for i := 0; i < n; i++ {
 			op.Txs = append(op.Txs, g.randTx())
+		}
+		if r.Chance(18) { // a burst of consecutive nonces from one account
+			a := r.Intn(c.NAccts)
+			op.Txs = nil
+			start := g.last.Accounts[a].PoolNonce + uint64(r.Intn(2))*uint64(r.Intn(3))
+			n = 2 + r.Intn(5)
+			for i := 0; i < n; i++ {
+				op.Txs = append(op.Txs, g.mkTx(a, true, start+uint64(i), g.price(a, uint64(1+r.Intn(12))), 21000, uint64(r.Intn(2)*100), 0))
+			}
 		}
 		if n > 1 && r.Chance(30) { // dependent nonces submitted out of order
 			op.Txs[0], op.Txs[n-1] = op.Txs[n-1], op.Txs[0]
@@ -1078,7 +1091,7 @@ func generate(r *vf.Rng) (*Case, runResult) {
 	o.prev = g.last
 	var res runResult
 	res.where = -1
-	steps := 4 + r.Heavy(90)
+	steps := 6 + r.Heavy(140)
 	for len(c.Ops) < steps {
 		for _, op := range g.nextOps() {
 			op := op
